@@ -1,7 +1,7 @@
 (* Model of the TWKB codec, integer layer.  Carrier: Z = the already quantised ordinate
    int64(math.Round(f * 10^prec)); the float <-> integer step is Model/TWKBQuant.v.
    Anchors: geom/twkb.go, geom/twkb_write.go (twkbWriter), geom/twkb_parser.go (twkbParser).
-   The model follows the code WITH the repairs fixes/F5, F6, F7, F15, F16, F17, F18, F31, F70, F71 applied
+   The model follows the code WITH the repairs fixes/F5, F6, F7, F15, F16, F17, F18, F31, F70, F71, F72 applied
    (each place is marked "fix Fnn"; F7 and F31 are C08's patches); the unrepaired behaviours are re-found by the
    correspondence run on the unfixed tree.
    Representation choices (all behaviour-preserving):
@@ -223,6 +223,16 @@ Fixpoint twrite (c : wcfg) (g : zgeom) {struct g} : outcome (list N * wst) :=
 
 Definition prec_bad (lo p : Z) : bool := ((p <? lo) || (7 <? p))%Z.
 
+(* NumPoints / NumLineStrings / NumPolygons / NumGeometries *)
+Definition member_count (g : zgeom) : nat :=
+  match g with
+  | GMPoint _ l => length l
+  | GMLine _ l => length l
+  | GMPoly _ l => length l
+  | GColl _ l => length l
+  | _ => 1%nat
+  end.
+
 (* MarshalTWKB. fix F15: an ID list on a Point, LineString or Polygon is refused (before the
    repair the flag was set, no IDs were written and the output could not be decoded) *)
 Definition tmarshal (o : topts) (g : zgeom) : outcome (list N) :=
@@ -233,6 +243,13 @@ Definition tmarshal (o : topts) (g : zgeom) : outcome (list N) :=
   else if match o_ids o, geom_type g with
           | _ :: _, (TPoint | TLine | TPoly) => true
           | _, _ => false
+          end then Err EOther
+  (* fix F72: the ID count is checked here too, because an empty geometry is written as a bare
+     "is empty" header and never reaches writeIDList (before the repair MULTIPOINT EMPTY with two
+     IDs was accepted and the IDs were dropped) *)
+  else if match o_ids o with
+          | [] => false
+          | ids => negb (Nat.eqb (member_count g) (length ids))
           end then Err EOther
   else
     do (bs, _) <- twrite {| w_hasz := has_z ct; w_hasm := has_m ct; w_pxy := o_pxy o; w_pz := pz;
@@ -719,10 +736,7 @@ Definition opts_dom (o : topts) (g : zgeom) : bool :=
   | [] => true
   | ids =>
       match g with
-      | GMPoint _ ps => is_empty g || Nat.eqb (length ps) (length ids)
-      | GMLine _ ls => is_empty g || Nat.eqb (length ls) (length ids)
-      | GMPoly _ ps => is_empty g || Nat.eqb (length ps) (length ids)
-      | GColl _ gs => is_empty g || Nat.eqb (length gs) (length ids)
+      | GMPoint _ _ | GMLine _ _ | GMPoly _ _ | GColl _ _ => Nat.eqb (member_count g) (length ids)
       | _ => false
       end
   end.
@@ -733,6 +747,17 @@ Definition wf_twkb (o : topts) (g : zgeom) : bool :=
    classify a failure as the known ring-closure ambiguity and nothing else *)
 Definition wf_twkb_noring (o : topts) (g : zgeom) : bool :=
   consistent (Z.eqb 0) g && geom_dom ring_closed g && opts_dom o g.
+(* rings closed in X and Y only (what Validate asks): the class of finding F73, a closing vertex
+   whose Z or M differs from the first vertex's cannot be carried by the implicit closure *)
+Definition ring_closed_xy (l : lineT Z) : bool :=
+  line_dom l &&
+  match line_vs l with
+  | [] => false
+  | [_] => true
+  | v0 :: tl => ((vx v0 =? vx (last tl v0)) && (vy v0 =? vy (last tl v0)))%Z
+  end.
+Definition wf_twkb_xyring (o : topts) (g : zgeom) : bool :=
+  consistent (Z.eqb 0) g && geom_dom ring_closed_xy g && opts_dom o g.
 
 (* "out-of-range precisions and mismatched ID counts are rejected with an error" (and, with
    fix F15, an ID list on a type that cannot carry one) *)
@@ -744,10 +769,8 @@ Definition must_reject (o : topts) (g : zgeom) : bool :=
   | [] => false
   | ids =>
       match g with
-      | GMPoint _ ps => negb (is_empty g) && negb (Nat.eqb (length ps) (length ids))
-      | GMLine _ ls => negb (is_empty g) && negb (Nat.eqb (length ls) (length ids))
-      | GMPoly _ ps => negb (is_empty g) && negb (Nat.eqb (length ps) (length ids))
-      | GColl _ gs => negb (is_empty g) && negb (Nat.eqb (length gs) (length ids))
+      | GMPoint _ _ | GMLine _ _ | GMPoly _ _ | GColl _ _ =>
+          negb (Nat.eqb (member_count g) (length ids))
       | _ => true
       end
   end.
